@@ -154,3 +154,143 @@ pub proof fn lemma_traks_len_mono(v: Seq<TrakBox>, a: int, n: int)
 {
     if n > 0 { if a < n { lemma_traks_len_mono(v, a, n - 1); } else { lemma_traks_len_mono(v, a - 1, n - 1); } }
 }
+
+// ================================================================================================================
+// Field-level representability ("fw"): the wire predicates without their length conjuncts.  The muxer's invariant carries
+// the fw part (every field it ever sets fits its wire width); the lengths follow from one hypothesis on the total
+// (lemma_moov_wire_from_fw): a movie box of at most 4 GiB (DESIGN D-20).
+pub open spec fn hdlr_fw(b: HdlrBox) -> bool { flags_wire(b.flags) }
+pub open spec fn url_fw(b: UrlBox) -> bool { flags_wire(b.flags) }
+pub open spec fn dref_fw(b: DrefBox) -> bool { flags_wire(b.flags) && (b.url matches Some(u) ==> url_fw(u)) }
+pub open spec fn dinf_fw(b: DinfBox) -> bool { dref_fw(b.dref) }
+pub open spec fn avcc_fw(b: AvcCBox) -> bool {
+    b.sequence_parameter_sets@.len() <= 31 && b.picture_parameter_sets@.len() <= 255
+    && nals_wire(b.sequence_parameter_sets@) && nals_wire(b.picture_parameter_sets@)
+}
+pub open spec fn avc1_fw(b: Avc1Box) -> bool { avcc_fw(b.avcc) && b.horizresolution.0.denom == 0x10000 && b.vertresolution.0.denom == 0x10000 }
+pub open spec fn hvcc_fw(b: HvcCBox) -> bool {
+    &&& b.general_constraint_indicator_flag < 0x1000000000000
+    &&& b.arrays@.len() <= 255
+    &&& forall|i: int| 0 <= i < b.arrays@.len() ==> (#[trigger] b.arrays@[i]).nalus@.len() <= 0xffff
+          && forall|j: int| 0 <= j < b.arrays@[i].nalus@.len() ==> (#[trigger] b.arrays@[i].nalus@[j]).data@.len() == b.arrays@[i].nalus@[j].size
+}
+pub open spec fn hev1_fw(b: Hev1Box) -> bool { hvcc_fw(b.hvcc) && b.horizresolution.0.denom == 0x10000 && b.vertresolution.0.denom == 0x10000 }
+pub open spec fn stsd_fw(b: StsdBox) -> bool {
+    &&& flags_wire(b.flags)
+    &&& (b.avc1 matches Some(x) ==> avc1_fw(x))
+    &&& (b.avc1 is None && b.hev1 is Some ==> hev1_fw(b.hev1->Some_0))
+    &&& (b.avc1 is None && b.hev1 is None && b.vp09 is Some ==> vp09_wire(b.vp09->Some_0))
+    &&& (b.avc1 is None && b.hev1 is None && b.vp09 is None && b.mp4a is Some ==> mp4a_wire(b.mp4a->Some_0))
+}
+/// flags of the sample tables (the only table fields that do not follow from the length bound), stsz shape
+pub open spec fn tables_fw(b: StblBox) -> bool {
+    &&& flags_wire(b.stts.flags) && flags_wire(b.stsc.flags) && flags_wire(b.stsz.flags)
+    &&& (b.stsz.sample_size == 0 ==> b.stsz.sample_sizes@.len() == b.stsz.sample_count)
+    &&& (b.stsz.sample_size != 0 ==> b.stsz.sample_sizes@.len() == 0)
+    &&& (b.ctts matches Some(x) ==> flags_wire(x.flags)) && (b.stss matches Some(x) ==> flags_wire(x.flags))
+    &&& (b.stco matches Some(x) ==> flags_wire(x.flags)) && (b.co64 matches Some(x) ==> flags_wire(x.flags))
+}
+pub open spec fn stbl_fw(b: StblBox) -> bool { stsd_fw(b.stsd) && tables_fw(b) }
+pub open spec fn minf_fw(b: MinfBox) -> bool {
+    (b.vmhd matches Some(x) ==> vmhd_wire(x)) && (b.smhd matches Some(x) ==> smhd_wire(x)) && dinf_fw(b.dinf) && stbl_fw(b.stbl)
+}
+pub open spec fn mdia_fw(b: MdiaBox) -> bool { mdhd_wire(b.mdhd) && hdlr_fw(b.hdlr) && minf_fw(b.minf) }
+pub open spec fn trak_fw(b: TrakBox) -> bool { tkhd_wire(b.tkhd) && b.edts is None && mdia_fw(b.mdia) }
+pub open spec fn moov_fw(b: MoovBox) -> bool {
+    &&& mvhd_wire(b.mvhd) && b.meta is None && b.udta is None
+    &&& forall|i: int| 0 <= i < b.traks@.len() ==> trak_fw(#[trigger] b.traks@[i])
+}
+
+pub proof fn lemma_nal_sum_nonneg(v: Seq<NalUnit>, n: int)
+    requires 0 <= n <= v.len()
+    ensures 0 <= nal_sum(v, n)
+    decreases n
+{
+    if n > 0 { lemma_nal_sum_nonneg(v, n - 1); }
+}
+pub proof fn lemma_hvcc_nalus_nonneg(v: Seq<HvcCArrayNalu>, n: int)
+    requires 0 <= n <= v.len()
+    ensures 0 <= hvcc_nalus_sum(v, n)
+    decreases n
+{
+    if n > 0 { lemma_hvcc_nalus_nonneg(v, n - 1); }
+}
+pub proof fn lemma_hvcc_arrays_nonneg(v: Seq<HvcCArray>, n: int)
+    requires 0 <= n <= v.len()
+    ensures 0 <= hvcc_arrays_sum(v, n)
+    decreases n
+{
+    if n > 0 { lemma_hvcc_arrays_nonneg(v, n - 1); lemma_hvcc_nalus_nonneg(v[n - 1].nalus@, v[n - 1].nalus@.len() as int); }
+}
+
+/// lower bounds of the lengths (every box is at least its header)
+pub proof fn lemma_stsd_len_lb(b: StsdBox)
+    ensures stsd_len(b) >= 16, stsd_entry_len(b) >= 0,
+            b.avc1 matches Some(x) ==> avc1_len(x) >= 101 && avcc_len(x.avcc) >= 15,
+            b.hev1 matches Some(x) ==> hev1_len(x) >= 117 && hvcc_len(x.hvcc) >= 31,
+{
+    if b.avc1 is Some {
+        let a = b.avc1->Some_0.avcc;
+        lemma_nal_sum_nonneg(a.sequence_parameter_sets@, a.sequence_parameter_sets@.len() as int);
+        lemma_nal_sum_nonneg(a.picture_parameter_sets@, a.picture_parameter_sets@.len() as int);
+    }
+    if b.hev1 is Some {
+        let h = b.hev1->Some_0.hvcc;
+        lemma_hvcc_arrays_nonneg(h.arrays@, h.arrays@.len() as int);
+    }
+}
+
+pub proof fn lemma_stbl_wire_from_fw(b: StblBox)
+    requires stbl_fw(b), stbl_len(b) <= 0xffff_ffff
+    ensures stbl_wire(b)
+{
+    lemma_stsd_len_lb(b.stsd);
+}
+
+pub proof fn lemma_trak_wire_from_fw(b: TrakBox)
+    requires trak_fw(b), trak_len(b) <= 0xffff_ffff
+    ensures trak_wire(b), trak_len(b) >= 8
+{
+    lemma_stsd_len_lb(b.mdia.minf.stbl.stsd);
+    lemma_stbl_wire_from_fw(b.mdia.minf.stbl);
+}
+
+pub proof fn lemma_traks_len_nonneg(v: Seq<TrakBox>, n: int)
+    requires 0 <= n <= v.len(), forall|i: int| 0 <= i < v.len() ==> trak_fw(#[trigger] v[i])
+    ensures traks_len(v, n) >= 0, forall|i: int| 0 <= i < n ==> trak_len(#[trigger] v[i]) <= traks_len(v, n)
+    decreases n
+{
+    if n > 0 {
+        lemma_traks_len_nonneg(v, n - 1);
+        lemma_trak_len_lb(v[n - 1]);
+    }
+}
+pub proof fn lemma_trak_len_lb(b: TrakBox)
+    requires trak_fw(b)
+    ensures trak_len(b) >= 8
+{
+    lemma_stsd_len_lb(b.mdia.minf.stbl.stsd);
+}
+
+pub proof fn lemma_moov_wire_from_fw(b: MoovBox)
+    requires moov_fw(b), moov_len(b) <= 0xffff_ffff
+    ensures moov_wire(b)
+{
+    lemma_traks_len_nonneg(b.traks@, b.traks@.len() as int);
+    assert forall|i: int| 0 <= i < b.traks@.len() implies trak_wire(#[trigger] b.traks@[i]) by {
+        lemma_trak_wire_from_fw(b.traks@[i]);
+    }
+}
+
+pub proof fn lemma_traks_len_prefix(a: Seq<TrakBox>, b: Seq<TrakBox>, n: int)
+    requires 0 <= n <= a.len(), n <= b.len(), forall|i: int| 0 <= i < n ==> a[i] == b[i]
+    ensures traks_len(a, n) == traks_len(b, n)
+    decreases n
+{
+    if n > 0 { lemma_traks_len_prefix(a, b, n - 1); }
+}
+pub proof fn lemma_traks_len_push(v: Seq<TrakBox>, t: TrakBox)
+    ensures traks_len(v.push(t), v.len() as int + 1) == traks_len(v, v.len() as int) + trak_len(t)
+{
+    lemma_traks_len_prefix(v.push(t), v, v.len() as int);
+}
